@@ -246,6 +246,12 @@ def make_field(fs):
 
     if fs is None:
         return None
+    fs = dict(fs)
+    for k, v in list(fs.items()):
+        if v == "np_false":       # a switch read from a numpy / pandas table: numpy.False_ is falsy but is not the singleton False
+            fs[k] = np.False_
+        elif v == "np_true":
+            fs[k] = np.True_
     return FieldMngt(**fs)
 
 
